@@ -11,14 +11,14 @@ CFG = {
             "variable part is one of 24 fixed fills (empty, quotes, backslashes, control characters, 2/3/4-byte "
             "UTF-8, BOM, U+10FFFF, ...), seeded random fills, and a sweep of envelope lengths 370..392 bytes (token "
             "lengths 496..524, the bound being 384 <-> 512) with pad characters of JSON width 1, 2 (escape), 2, 3, 4 "
-            "(UTF-8) and 6 (\\u00XX), plus 400 .. 10,000 (thorough 100,000) bytes; each issued token is fed back through "
+            "(UTF-8) and 6 (\\u00XX), plus 400 .. 10,000 (thorough 20,000) bytes; each issued token is fed back through "
             "serde_urlencoded::from_str::<PaginationParams<Scan, Sel>>. accept cases - issued tokens, hand-encoded "
             "tokens for the same boundary selectors (accept must mirror issue), valid envelopes padded with JSON "
             "whitespace to 381..388 bytes, ~70 envelope edits before re-encoding (field order, whitespace, extra / "
             "duplicate / missing fields, 18 version spellings incl. {\"v1\":null}, sequence form, wrong selector "
             "type, trailing garbage, BOM, invalid UTF-8, NUL), each in four encoding dialects (url-safe, unpadded, "
             "over-padded, standard alphabet), non-zero trailing bits, 21 non-tokens, runs of 508..516 and up to "
-            "100,000 characters. grid cases - for base tokens (one short, one per padding residue): every "
+            "8,192 (thorough 30,000) characters; a fourth selector type whose Serialize fails (issue must be a 500). grid cases - for base tokens (one short, one per padding residue): every "
             "single-character substitution by all 256 code points at every position (quick: 1 token per shape, "
             "thorough: 4; the others all 67 alphabet/padding characters of both dialects at every position), "
             "truncation at every length, deletion at every position, insertion of 'A' '=' ' ' U+00E9 at every "
